@@ -50,7 +50,7 @@ func workloads(nosync bool) []Workload {
 	}
 	childAlpha := []*BatchSpec{
 		{Ops: kv("a", "1", "marker", "r1").Ops, Kids: kid("A", kv("ca", "1"))},
-		{Ops: kv("marker", "r2").Ops, Kids: kid("A", kv("cb", "2", "ca", "<del>"))},
+		{Kids: kid("A", kv("cb", "2", "ca", "<del>"))}, // a round that writes to the child collection only
 		{Ops: kv("b", "3", "marker", "r3").Ops},
 	}
 	c := func(cc int) Config {
@@ -63,7 +63,7 @@ func workloads(nosync bool) []Workload {
 		{"W-b: forced full compaction every round", c(2), alpha, []string{"B0", "M", "P", "B1", "M", "P", "B2", "M", "P"}},
 		{"W-c: five rounds, leveled compaction (three appends, a partial compaction, then a full one)", lv, alpha, []string{"B0", "M", "P", "B2", "M", "P", "B0", "M", "P", "B2", "M", "P", "B2", "M", "P"}},
 		{"W-d: two rounds, revert to the first, one more round", c(0), alpha, []string{"B0", "M", "P", "B1", "M", "P", "V1", "B3", "M", "P"}},
-		{"W-e: three appending rounds with a child collection", c(0), childAlpha, []string{"B0", "M", "P", "B1", "M", "P", "B2", "M", "P"}},
+		{"W-e: three appending rounds with a child collection (the second one writes to the child only)", c(0), childAlpha, []string{"B0", "M", "P", "B1", "M", "P", "B2", "M", "P"}},
 		{"W-f: leveled compaction, history ends right after a partial compaction (four rounds)", lv, alpha, []string{"B0", "M", "P", "B2", "M", "P", "B0", "M", "P", "B2", "M", "P"}},
 		{"W-h: forced compaction, second round deletes everything (the new file holds a footer only)", c(2), alpha, []string{"B0", "M", "P", "B5", "M", "P", "B3", "M", "P"}},
 		{"W-g: leveled compaction, partial compaction in the fifth round", lv, alpha, []string{"B0", "M", "P", "B2", "M", "P", "B0", "M", "P", "B0", "M", "P", "B1", "M", "P"}},
@@ -684,7 +684,7 @@ func checkC05(prop, tier string) int {
 	}
 	var metas []meta
 	modes := []bool{false}
-	wlIdx := []int{0, 1, 2, 3, 5, 6}
+	wlIdx := []int{0, 1, 2, 3, 4, 5, 6}
 	if tier == "thorough" {
 		modes = []bool{false, true}
 		wlIdx = []int{0, 1, 2, 3, 4, 5, 6, 7}
